@@ -1,4 +1,8 @@
+mod c01;
+mod c02;
 mod c18;
+mod genpkt;
+mod libconv;
 mod check;
 mod refmqtt;
 mod simnet;
@@ -25,6 +29,8 @@ fn main() {
         Some("check") => {
             let t = tier(args.get(3));
             match args.get(2).map(|s| s.as_str()) {
+                Some("C01") => c01::run(t),
+                Some("C02") => c02::run(t),
                 Some("C18") => c18::run(t),
                 other => {
                     eprintln!("unknown property {other:?}");
